@@ -1,0 +1,10 @@
+//go:build verif
+
+// Machine-checked contracts for this package (comment-only; compiled only under the
+// build tag `verif`, where it still contains no code). Checked by /verif/govc.
+package keeper
+
+// ---- frames of what other modules call (checked against the call-graph inference) ---------------
+//@ func (Keeper).ClaimRewards
+//@ modifies module:commitment, module:masterchef, bank
+//@ frame-only
